@@ -48,6 +48,73 @@ def random_rule_params(rng, maxn=14):
     return p
 
 
+def calendar_rule_params(rng):
+    """rules with several occurrences per period whose sequence crosses a YEAR boundary after a few occurrences (dtstart late in
+    2019, i.e. negative instants): the per-iteration year/month masks of rrule._iter are rebuilt in the middle of the sequence, so
+    two live iterations over ONE rule object that are not in lockstep only agree if each has its own masks"""
+    from dateutil import rrule as R
+    kind = rng.randrange(6)
+    day = 86400
+    if kind == 0:
+        return dict(freq=R.DAILY, dtstart=to_dt(-day * rng.randint(1, 6) + rng.choice([0, 9 * 3600])), interval=rng.choice([1, 1, 2]), count=rng.randint(6, 16))
+    if kind == 1:
+        return dict(freq=R.WEEKLY, byweekday=tuple(sorted(rng.sample(range(7), 2))), dtstart=to_dt(-day * rng.randint(3, 12) + 9 * 3600), count=rng.randint(6, 12))
+    if kind == 2:
+        return dict(freq=R.MONTHLY, bymonthday=rng.choice([(1, 15), (5, 20, 28), (-1, 10)]), dtstart=datetime.datetime(2019, rng.choice([10, 11, 12]), 1, 9, 0), count=rng.randint(6, 10))
+    if kind == 3:
+        return dict(freq=R.YEARLY, bymonth=rng.choice([(3, 9), (1, 6, 12), (2, 11)]), bymonthday=1, dtstart=datetime.datetime(2019, rng.choice([2, 3, 9]), 1, 9, 0), count=rng.randint(5, 8))
+    if kind == 4:
+        return dict(freq=R.HOURLY, dtstart=to_dt(-3600 * rng.choice([6, 12, 20, 30])), interval=rng.choice([6, 8, 12]), count=rng.randint(8, 14))
+    return dict(freq=R.DAILY, byweekday=tuple(sorted(rng.sample(range(7), 3))), dtstart=to_dt(-day * rng.randint(2, 9)), count=rng.randint(6, 12))
+
+
+def maxyear_rule_params(rng):
+    """COUNT-limited rules that run into datetime.MAXYEAR before COUNT occurrences exist: the sequence is SHORTER than COUNT"""
+    from dateutil import rrule as R
+    D = datetime.datetime
+    return rng.choice([
+        dict(freq=R.YEARLY, count=rng.randint(11, 25), dtstart=D(9990 + rng.randint(0, 6), 1, 1)),
+        dict(freq=R.MONTHLY, count=rng.randint(20, 30), dtstart=D(9998, rng.choice([6, 9]), 15, 12, 0)),
+        dict(freq=R.WEEKLY, interval=2, count=40, dtstart=D(9999, rng.choice([1, 6]), 4)),
+        dict(freq=R.DAILY, count=rng.randint(32, 50), dtstart=D(9999, 12, rng.randint(1, 20), 9, 0)),
+        dict(freq=R.HOURLY, interval=rng.choice([1, 2]), count=100, dtstart=D(9999, 12, 30)),
+        dict(freq=R.YEARLY, bymonth=(3, 9), bymonthday=1, count=30, dtstart=D(9992, 3, 1, 9, 0)),
+    ])
+
+
+def params_record(p):
+    """JSON form of constructor keywords (datetimes as ISO strings, tuples as lists)"""
+    q = {}
+    for k, v in p.items():
+        q[k] = v.isoformat() if hasattr(v, "isoformat") else (list(v) if isinstance(v, tuple) else v)
+    return q
+
+
+def params_rebuild(rec):
+    kw = {}
+    for k, v in rec.items():
+        kw[k] = datetime.datetime.fromisoformat(v) if k in ("dtstart", "until") else (tuple(v) if isinstance(v, list) else v)
+    return kw
+
+
+def q_parse(text):
+    """inverse of q_wire"""
+    f = text.split(":")
+    conv = lambda x: None if x == "-" else int(x)
+    k = f[0]
+    if k in ("all", "cnt"):
+        return (k,)
+    if k in ("bef", "aft"):
+        return (k, int(f[1]), f[2] == "1")
+    if k == "xaf":
+        return (k, int(f[1]), conv(f[2]), f[3] == "1")
+    if k == "btw":
+        return (k, int(f[1]), int(f[2]), f[3] == "1")
+    if k == "sl":
+        return (k, conv(f[1]), conv(f[2]), conv(f[3]))
+    return (k, int(f[1]))
+
+
 def make_rule(params, cache):
     from dateutil import rrule as R
     import warnings
